@@ -6,6 +6,7 @@ package c13
 
 import (
 	"bytes"
+	stdcontext "context"
 	"compress/gzip"
 	"crypto/sha1"
 	"crypto/tls"
@@ -206,11 +207,16 @@ type vfHTTPReq struct {
 	Certs   int    // TLS peer certificates
 	Auth    string // class of the Authorization header
 	Resp    string // response left by an earlier filter: none|buffered|stream|gzip|badgzip
+	Ctx     string // request context: "" live | pre-cancelled | deadline-expired | cancel-after-<d> | deadline-<d>
 }
 
 func (r vfHTTPReq) String() string {
-	return fmt.Sprintf("%s %s?%s host=%q remote=%s hdr=%v body=%s maxBody=%d certs=%d auth=%s priorResp=%s",
+	s := fmt.Sprintf("%s %s?%s host=%q remote=%s hdr=%v body=%s maxBody=%d certs=%d auth=%s priorResp=%s",
 		r.Method, r.Path, r.Query, r.Host, r.Remote, r.Hdr, r.Body, r.MaxBody, r.Certs, r.Auth, r.Resp)
+	if r.Ctx != "" {
+		s += " requestContext=" + r.Ctx
+	}
+	return s
 }
 
 // Class is a coarse description used for the distinct-case key.
@@ -219,7 +225,11 @@ func (r vfHTTPReq) Class() string {
 	for _, h := range r.Hdr {
 		hs = append(hs, h[0])
 	}
-	return fmt.Sprintf("%s %s body=%s stream=%v certs=%d auth=%s resp=%s hdr=%s", r.Method, r.Path, r.Body, r.MaxBody < 0, r.Certs, r.Auth, r.Resp, strings.Join(hs, ","))
+	s := fmt.Sprintf("%s %s body=%s stream=%v certs=%d auth=%s resp=%s hdr=%s", r.Method, r.Path, r.Body, r.MaxBody < 0, r.Certs, r.Auth, r.Resp, strings.Join(hs, ","))
+	if r.Ctx != "" {
+		s += " ctx=" + r.Ctx
+	}
+	return s
 }
 
 func vfPick(rt *rapid.T, label string, xs ...string) string {
@@ -383,12 +393,69 @@ func (r vfHTTPReq) Std(env *vfEnvT) *http.Request {
 // request in the default namespace, payload fetched with the server's size limit, no response.
 // priorResp adds the response an earlier filter of the same pipeline would have left behind.
 func (r vfHTTPReq) Context(env *vfEnvT) (*context.Context, bool) {
+	ctx, _, ok := r.ContextCtl(env)
+	return ctx, ok
+}
+
+// vfReqCtl controls the life of the request's context (the client side of the connection):
+// arm() is called right before Handle, done() after it returned (joins the timer, releases the context).
+type vfReqCtl struct{ arm, done func() }
+
+var vfCtxModes = []string{"pre-cancelled", "deadline-expired", "cancel-after-1ms", "cancel-after-5ms", "deadline-5ms", "cancel-after-30ms"}
+
+// ContextCtl is Context for a request whose client may go away: the std request carries a context
+// that is already cancelled / past its deadline, or that the harness cancels a few milliseconds
+// after Handle started (r.Ctx). Which point of the handling the cancellation hits depends on the
+// scheduler; the oracle (no panic) holds for every outcome.
+func (r vfHTTPReq) ContextCtl(env *vfEnvT) (*context.Context, vfReqCtl, bool) {
 	stdr := r.Std(env)
+	ctl := vfReqCtl{arm: func() {}, done: func() {}}
+	if r.Ctx != "" {
+		var c stdcontext.Context
+		var cancel stdcontext.CancelFunc
+		var after time.Duration
+		switch {
+		case r.Ctx == "pre-cancelled":
+			c, cancel = stdcontext.WithCancel(stdcontext.Background())
+			cancel()
+		case r.Ctx == "deadline-expired":
+			c, cancel = stdcontext.WithDeadline(stdcontext.Background(), time.Now().Add(-time.Second))
+		case strings.HasPrefix(r.Ctx, "deadline-"):
+			d, err := time.ParseDuration(strings.TrimPrefix(r.Ctx, "deadline-"))
+			if err != nil {
+				panic("harness bug: " + r.Ctx)
+			}
+			c, cancel = stdcontext.WithTimeout(stdcontext.Background(), d)
+		case strings.HasPrefix(r.Ctx, "cancel-after-"):
+			d, err := time.ParseDuration(strings.TrimPrefix(r.Ctx, "cancel-after-"))
+			if err != nil {
+				panic("harness bug: " + r.Ctx)
+			}
+			c, cancel = stdcontext.WithCancel(stdcontext.Background())
+			after = d
+		default:
+			panic("harness bug: " + r.Ctx)
+		}
+		stdr = stdr.WithContext(c)
+		var timer *time.Timer
+		ctl.arm = func() {
+			if after > 0 {
+				timer = time.AfterFunc(after, cancel)
+			}
+		}
+		ctl.done = func() {
+			if timer != nil {
+				timer.Stop()
+			}
+			cancel()
+		}
+	}
 	ctx := context.New(tracing.NoopTracer.NewSpan("vf"))
 	req, _ := httpprot.NewRequest(stdr)
 	ctx.SetRequest(context.DefaultNamespace, req)
 	if err := req.FetchPayload(r.MaxBody); err != nil {
-		return nil, false // the server answers 413/400 itself; no handler is called
+		ctl.done()
+		return nil, ctl, false // the server answers 413/400 itself; no handler is called
 	}
 	switch r.Resp {
 	case "buffered":
@@ -413,7 +480,15 @@ func (r vfHTTPReq) Context(env *vfEnvT) (*context.Context, bool) {
 		resp.SetPayload([]byte("not gzip at all"))
 		ctx.SetResponse(context.DefaultNamespace, resp)
 	}
-	return ctx, true
+	return ctx, ctl, true
+}
+
+// vfGenReqCtx draws the request-context class: live ("") most of the time.
+func vfGenReqCtx(rt *rapid.T, pctGone int) string {
+	if !vfChance(rt, "request-context-gone", pctGone) {
+		return ""
+	}
+	return vfPick(rt, "request-context", vfCtxModes...)
 }
 
 // vfDrain consumes what the server would write to the client and finishes the context, the way
